@@ -227,6 +227,30 @@ def make_syntax(t, nmax):
     return ob
 
 
+T_NEST = cooked('<dtml-in outer mapping><dtml-try><dtml-in inner mapping><dtml-call "f(j)"></dtml-in><dtml-except>C</dtml-try><dtml-call "rec(_)">.</dtml-in>' + AFTER)
+
+
+class Boom(Exception):
+    pass
+
+
+def ob_nested_fault(k: int, a: int, b: int) -> bool:
+    """an inner loop whose body raises for its k-th element (caught by a surrounding dtml-try) leaves none of its bindings
+    behind: the outer loop still sees its own sequence variables and element"""
+    xs = [a, b]
+    outer = [{'x': xs[i], 'i': i} for i in range(2)]
+    inner = [{'j': 0, 'x': 100}, {'j': 1, 'x': 101}, {'j': 2, 'x': 102}]
+
+    def f(j):
+        if j + 1 == k:
+            raise Boom('fault at inner element %d' % j)
+        return ''
+    rec = Rec()
+    out = T_NEST(outer=outer, inner=inner, f=f, rec=rec)
+    exp = ('C.' if 1 <= k <= 3 else '.') * 2 + TAIL
+    return out == exp and check_rows(rec.rows, outer, xs, 0, 1, 2)
+
+
 def explain(obname, args):
     return ''
 
@@ -247,3 +271,5 @@ OBLIGATIONS.append(Ob('batch', make_batch(tier(5, 6)), ['0 <= n < %d' % tier(5, 
                       data='length 1..%d, start 1..n, size 1..3, payloads' % tier(5, 6), selectors='batched renderer (start/size), prefix=p'))
 OBLIGATIONS.append(Ob('ssi_syntax', make_syntax(T_SSI, 3), ['0 <= n <= 3'], timeout=tier(200, 900), data='length, payloads', selectors='<!--#in--> syntax'))
 OBLIGATIONS.append(Ob('epfs_syntax', make_syntax(T_EPFS, 3), ['0 <= n <= 3'], timeout=tier(200, 900), data='length, payloads', selectors='%(in)[ syntax'))
+OBLIGATIONS.append(Ob('nested_fault', ob_nested_fault, ['0 <= k <= 4'], timeout=tier(200, 900), data='position k of the inner element whose body raises (0/4 = none), outer payloads',
+                      selectors='inner dtml-in inside dtml-try inside an outer dtml-in'))
